@@ -115,6 +115,7 @@ func (p *Prog) c14Reach() *reachSets {
 func effSig(e ordEffect) string { return e.Kind + "[" + e.Detail + "]" }
 
 func runC14(p *Prog, r *Report) {
+	checkTotalOrderComparators(p, r)
 	oa := p.order()
 	rs := p.c14Reach()
 	nLoops := 0
@@ -567,4 +568,52 @@ func checkUnorderedArgs(p *Prog, r *Report, oa *orderAnalysis, rs *reachSets) {
 		}
 	}
 	_ = n
+}
+
+// R14.4: a sort that is meant to hide map-iteration order must be by a *total* order on the elements. A comparator that
+// compares concatenations of fields (Type+"::"+ID) is not injective — `Org::Unit::"x"` and `Org::"Unit::x"` tie — and tied
+// elements keep the order the map iteration gave them. Comparators must compare the key itself, an injective rendering
+// of it (String()/MarshalCedar()), or its fields one after the other.
+func checkTotalOrderComparators(p *Prog, r *Report) {
+	const rule = "R14.4-total-order"
+	n := 0
+	for _, fn := range p.Funcs {
+		if testSupportPkgs[fnPkgPath(fn)] {
+			continue
+		}
+		for _, cl := range callsIn(fn) {
+			f := cl.Common().StaticCallee()
+			if f == nil {
+				continue
+			}
+			name := fnPkgPath(f) + "." + fnBase(f)
+			if name != "slices.SortFunc" && name != "slices.SortStableFunc" && name != "sort.Slice" && name != "sort.SliceStable" {
+				continue
+			}
+			var cmp *ssa.Function
+			for _, a := range cl.Common().Args {
+				switch x := a.(type) {
+				case *ssa.MakeClosure:
+					cmp, _ = x.Fn.(*ssa.Function)
+				case *ssa.Function:
+					cmp = x
+				}
+			}
+			if cmp == nil || cmp.Blocks == nil {
+				continue
+			}
+			n++
+			concat := false
+			forEachInstr(cmp, func(in ssa.Instruction) {
+				if bo, ok := in.(*ssa.BinOp); ok && bo.Op == token.ADD && basicKind(bo.Type()) == types.String {
+					concat = true
+				}
+			})
+			r.Check(!concat, rule, fnQual(fn)+":comparator", p.pos(cl.Pos()), "the comparator orders by the key, an injective rendering of it, or its fields in turn",
+				"the comparator handed to "+name+" in "+fnShort(fn)+" compares string concatenations of fields: different elements can produce the same text (`A::B`+`::`+`x` vs `A`+`::`+`B::x`), tie, and keep the order map iteration gave them — the output is no longer the same on every run")
+		}
+	}
+	if n == 0 {
+		r.Undec(rule, "comparators", "-", "no comparator-based sort found (anchors vanished)")
+	}
 }
